@@ -379,7 +379,10 @@ R('cat', 2, [lambda e, w: e.cat(w.s[0], w.s[1]),
   'transform.basics', stream=MAP0)
 R('stack', 2, [lambda e, w: e.stack(w.s[0], w.s[1]),
                lambda e, w: e.stack(w.s[0], w.s[1], missing='M',
-                                    trim=False, pad=False)],
+                                    trim=False, pad=False),
+               lambda e, w: e.stack(w.s[0], w.s[1], missing='M',
+                                    trim=False, pad=True),
+               lambda e, w: e.stack(w.s[0], w.s[1], trim=True, pad=False)],
   'transform.basics', stream=MAP0)
 R('addfield', 1, [lambda e, w: e.addfield(w.s[0], 'z', 7),
                   lambda e, w: e.addfield(w.s[0], 'z', f_rec_a, index=0),
